@@ -281,15 +281,26 @@ func makeStringArshaler(t reflect.Type) *arshaler {
 		case '"':
 			val = jsonwire.UnquoteMayCopy(val, flags.IsVerbatim())
 			if stringify {
-				val, err = jsontext.AppendUnquote(nil, val)
-				if err != nil {
-					return newUnmarshalErrorAfter(dec, t, err)
-				}
+				// A JSON null quoted within the JSON string stands for a JSON null;
+				// the JSON string "null" quoted within it does not.
 				if uo.Flags.Get(jsonflags.StringifyWithLegacySemantics) && string(val) == "null" {
 					if !uo.Flags.Get(jsonflags.MergeWithLegacySemantics) {
 						va.SetString("")
 					}
 					return nil
+				}
+				quoted := val
+				val, err = jsontext.AppendUnquote(nil, quoted)
+				if err != nil && uo.Flags.Get(jsonflags.AllowInvalidUTF8) {
+					// Where invalid UTF-8 is allowed in the text itself, it is also
+					// allowed in the string quoted within (and has been replaced).
+					var inner jsonwire.ValueFlags
+					if n, err2 := jsonwire.ConsumeString(&inner, quoted, false); err2 == nil && n == len(quoted) {
+						err = nil
+					}
+				}
+				if err != nil {
+					return newUnmarshalErrorAfter(dec, t, err)
 				}
 			}
 			if xd.StringCache == nil {
